@@ -4,8 +4,11 @@ import (
 	"encoding/json"
 	"fmt"
 	"os"
+	"os/exec"
 	"path/filepath"
 	"sort"
+	"strings"
+	"sync"
 	"time"
 )
 
@@ -168,8 +171,128 @@ func (ev *Evidence) write() error {
 	return os.WriteFile(filepath.Join(dir, ev.PropertyID+".json"), b, 0o644)
 }
 
+// ---------------------------------------------------------------------------------------------
+// race detector sweep (C08): the same scenarios on the -race build in free mode
+
+type raceReport struct {
+	Pair string // sorted pair of the innermost GOAT frames of the two accesses
+	Text string
+}
+
+// parseRaceLog extracts data-race reports that involve code of GOATNetwork/goat.
+func parseRaceLog(text string) (goat []raceReport, other int) {
+	blocks := strings.Split(text, "WARNING: DATA RACE")
+	for _, b := range blocks[1:] {
+		if i := strings.Index(b, "=================="); i >= 0 {
+			b = b[:i]
+		}
+		// the two access stacks come first; goroutine creation stacks follow
+		sections := strings.Split(b, "\n\n")
+		var frames []string
+		for _, sec := range sections {
+			head := strings.TrimSpace(sec)
+			if !(strings.HasPrefix(head, "Write at") || strings.HasPrefix(head, "Read at") || strings.HasPrefix(head, "Previous write at") || strings.HasPrefix(head, "Previous read at") || strings.HasPrefix(head, "Previous atomic") || strings.HasPrefix(head, "Atomic")) {
+				continue
+			}
+			for _, ln := range strings.Split(sec, "\n") {
+				ln = strings.TrimSpace(ln)
+				if strings.HasPrefix(ln, "github.com/goatnetwork/goat/") && !strings.Contains(ln, "/verifsim/") {
+					if j := strings.Index(ln, "("); j > 0 {
+						ln = ln[:j]
+					}
+					frames = append(frames, ln)
+					break
+				}
+			}
+		}
+		if len(frames) == 0 {
+			other++
+			continue
+		}
+		sort.Strings(frames)
+		goat = append(goat, raceReport{Pair: strings.Join(frames, " <-> "), Text: b})
+	}
+	return goat, other
+}
+
 func raceSweep(bin, prop, tier string, seed uint64, workers int, known knownSet, ev *Evidence) (int, error) {
-	return 0, nil
+	if prop != "C08" {
+		return 0, nil
+	}
+	budget := 25 * time.Second
+	nw := 8
+	if tier == "thorough" {
+		budget = 6 * time.Minute
+		nw = workers
+	}
+	dir, err := os.MkdirTemp(filepath.Join(verifDir, "replays"), "race-")
+	if err != nil {
+		return 0, err
+	}
+	defer os.RemoveAll(dir)
+	var mu sync.Mutex
+	var results []*RunResult
+	var wg sync.WaitGroup
+	var werr []string
+	for i := 0; i < nw; i++ {
+		wg.Add(1)
+		go func(i int) {
+			defer wg.Done()
+			cmd := exec.Command(bin, "worker", "-property", prop, "-tier", "quick", "-seed", fmt.Sprint(seed^0x5ace), "-index", fmt.Sprint(i), "-of", fmt.Sprint(nw), "-budget", budget.String(),
+				"-replays", filepath.Join(verifDir, "replays"), "-race-log", filepath.Join(dir, fmt.Sprintf("w%d", i)))
+			cmd.Env = append(os.Environ(), "GOATSIM_FREE=1", "GORACE=halt_on_error=0 exitcode=0 log_path="+filepath.Join(dir, fmt.Sprintf("w%d", i)), "GOMAXPROCS=4")
+			out, err := cmd.Output()
+			mu.Lock()
+			defer mu.Unlock()
+			if err != nil {
+				werr = append(werr, fmt.Sprintf("race worker %d: %v", i, err))
+			}
+			for _, ln := range strings.Split(string(out), "\n") {
+				if strings.TrimSpace(ln) == "" {
+					continue
+				}
+				r := new(RunResult)
+				if json.Unmarshal([]byte(ln), r) == nil {
+					results = append(results, r)
+				}
+			}
+		}(i)
+	}
+	wg.Wait()
+	if len(werr) > 0 {
+		return 0, fmt.Errorf("%s", strings.Join(werr, "; "))
+	}
+	ev.Coverage.Race = map[string]int{"runs": 0, "heights": 0, "reports_in_goat_code": 0, "reports_elsewhere": 0}
+	seen := map[string]string{}
+	for _, r := range results {
+		if r.Error != "" {
+			return 0, fmt.Errorf("race run seed %d: %s", r.Seed, r.Error)
+		}
+		ev.Coverage.Race["runs"]++
+		ev.Coverage.Race["heights"] += r.Heights
+		ev.Coverage.Race["reports_elsewhere"] += r.RaceOther
+		for _, v := range r.Violations {
+			if v.Property == "C08" && v.Oracle == "data-race" {
+				ev.Coverage.Race["reports_in_goat_code"]++
+				if seen[v.Shape] == "" || r.PlanFile != "" {
+					seen[v.Shape] = r.PlanFile + "\x00" + v.Detail
+				}
+			}
+		}
+	}
+	n := 0
+	for shape, v := range seen {
+		parts := strings.SplitN(v, "\x00", 2)
+		viol := &Violation{Property: "C08", Oracle: "data-race", Shape: shape}
+		if k := known.matches(viol); k != nil {
+			fmt.Printf("KNOWN-FINDING: property=%s %s/%s: %s\n", k.Property, k.Oracle, k.Shape, k.Description)
+			continue
+		}
+		n++
+		fmt.Printf("violation: data-race/%s\n%s\n", shape, parts[1])
+		fmt.Printf("VIOLATION property=C08 replay=%s\n", parts[0])
+	}
+	return n, nil
 }
 
 func cmdSelftest(args []string) int {
